@@ -899,9 +899,16 @@ def find_replace(
         template_replacement = core.format_template(replace, combined_match, **callables)
 
         indentation = formatting.indentation_level(source[range_start:range_end])
+        line_start = source.rfind("\n", 0, range_start) + 1
+        starts_line = not source[line_start:range_start].strip()
+        if starts_line:
+            # The first line of the match does not contain its own indentation
+            indentation = range_start - line_start
 
         template_replacement = textwrap.dedent(template_replacement)
         template_replacement = textwrap.indent(template_replacement, " " * indentation)
+        if starts_line and template_replacement.startswith(" " * indentation):
+            template_replacement = template_replacement[indentation:]
 
         item = [replacement_range, template_replacement]
         if transaction is not None:
